@@ -5,7 +5,7 @@
    counter-before-delivery window of issues 647/655/1436.  A schedule it returns is checked by
    running it through `run`, so it is a genuine execution of the model. *)
 From Coq Require Import List NArith Bool.
-From FV.C02 Require Import Model Graph Order Safe.
+From FV.C02 Require Import Model Graph Order Safe LiveCheck.
 Import ListNotations.
 Open Scope N_scope.
 
@@ -69,11 +69,79 @@ Definition confirms (G : graph) (p : N * N) (sched : list event) : bool :=
   | None => false
   end.
 
-(* for a failing instance: the first uncertified pair together with a confirmed bad schedule, if found *)
+(* ---- search for a stuck state ("unable to proceed") ------------------------------------------ *)
+(* a scheduler driven by a fixed policy: `eager` delivers completion messages before launching,
+   `lifo` delivers the newest message first, `avoid` lists jobs whose message is delivered last *)
+Fixpoint drive (G : graph) (avoid : list N) (eager lifo : bool) (fuel : nat) (st : state) (acc : list event)
+  : list event * state :=
+  match fuel with
+  | O => (rev acc, st)
+  | S f =>
+      let dl := if lifo then rev (deliverable st) else deliverable st in
+      let try_deliver (k : unit -> list event * state) :=
+        match pick_not avoid dl with
+        | Some i => match step G st (Deliver i) with
+                    | Some st' => if err st' then (rev acc, st) else drive G avoid eager lifo f st' (Deliver i :: acc)
+                    | None => (rev acc, st)
+                    end
+        | None => k tt
+        end in
+      let try_launch (k : unit -> list event * state) :=
+        match pick_not [] (launchable st) with
+        | Some i => match step G st (Launch i) with
+                    | Some st' => drive G avoid eager lifo f st' (Launch i :: acc)
+                    | None => (rev acc, st)
+                    end
+        | None => k tt
+        end in
+      let try_finish (k : unit -> list event * state) :=
+        match pick_not [] (running st) with
+        | Some i => match step G st (WFinish i) with
+                    | Some st' => drive G avoid eager lifo f st' (WFinish i :: acc)
+                    | None => (rev acc, st)
+                    end
+        | None => k tt
+        end in
+      if eager then try_deliver (fun _ => try_launch (fun _ => try_finish (fun _ => (rev acc, st))))
+      else try_launch (fun _ => try_finish (fun _ => try_deliver (fun _ => (rev acc, st))))
+  end.
+
+Definition is_stuck (st : state) : bool :=
+  negb (err st)
+  && match pending st with [] => false | _ => true end
+  && match launchable st with [] => true | _ => false end
+  && forallb (fun p => negb (prun (snd p))) (pending st).
+
+(* the schedule really is a run of the model that ends with jobs pending, nothing running, nothing launchable *)
+Definition confirms_stuck (G : graph) (sched : list event) : bool :=
+  match run G (init G) sched with Some st => is_stuck st | None => false end.
+
+Definition stuck_schedule (G : graph) : option (list event) :=
+  let fuel := (4 * length (all_ids G) + 16)%nat in
+  let policies :=
+    flat_map (fun avoid => [(avoid, false, false); (avoid, false, true); (avoid, true, false); (avoid, true, true)])
+             ([] :: map (fun h => [fst h]) (handlers G)) in
+  let fix first (ps : list (list N * bool * bool)) : option (list event) :=
+    match ps with
+    | [] => None
+    | (avoid, eager, lifo) :: t =>
+        let '(sched, st) := drive G avoid eager lifo fuel (init G) [] in
+        if is_stuck st && confirms_stuck G sched then Some sched else first t
+    end in
+  first policies.
+
+Inductive finding :=
+| Unordered (w y : N) (schedule : option (list event))
+| Stuck (rejected_decls rejected_handlers rejected_statics : list N) (schedule : option (list event)).
+
+(* for a failing instance: the first uncertified pairs, each with a confirmed bad schedule if one is found, and, when
+   the progress condition live_graph rejects the graph, what it rejects together with a confirmed stuck schedule *)
 Definition search_instance (G : graph) (trace : list event) (order : list N) (pairs hpairs : list (N * N))
-  : list (N * N * option (list event)) :=
+  : list finding :=
   map (fun p => match bad_schedule G p with
-                | Some s => if confirms G p s then (fst p, snd p, Some s) else (fst p, snd p, None)
-                | None => (fst p, snd p, None)
+                | Some s => if confirms G p s then Unordered (fst p) (snd p) (Some s) else Unordered (fst p) (snd p) None
+                | None => Unordered (fst p) (snd p) None
                 end)
-      (firstn 3 (filter (fun p => negb (pair_ok (snd (closure G order)) p)) pairs)).
+      (firstn 3 (filter (fun p => negb (pair_ok (snd (closure G order)) p)) pairs))
+  ++ (if live_instance G order then []
+      else let '(a, b, c) := live_failures G order in [Stuck a b c (stuck_schedule G)]).
